@@ -10,7 +10,24 @@ def run(ctx):
         (3, C.gen_hub),
         (1, C.gen_group),
     ]
+    ctx.post_search = table_search
     return C.run_check(ctx, "C04", gens, 170, 8000)
+
+
+def table_search(ctx, exe):
+    """a generated-table obligation broke (the status table in the source changed): one-to-one receipts
+    are additionally guarded by the receipt index, so also search the one-to-many histories, whose
+    children go through the same setFSM, with the group predicate"""
+    if ctx.violations or not any(w.startswith("proof:") for w, _ in (ctx.broken_list or [])):
+        return
+    hs = [C.gen_group(ctx.rng) for _ in range(60 if ctx.quick else 1500)]
+    rows = C.eval_histories(ctx, "C05", exe, hs, "t")
+    for h, impl, v in rows:
+        if v[0] == 2:
+            small = C.shrink(ctx, "C05", exe, h, 2)
+            ctx.violation("status table changed: a child status leaves the protocol's transitions (group predicate false on the implementation trace)",
+                          dict(property="C04", driver="ibtp", history=small, verdict=v, judged_as="C05"))
+            return
 
 
 def replay(ctx, path):
